@@ -280,7 +280,8 @@ def apalache_inductive(module_path: str, init: str, ind_init: str, ind_inv: str,
     try:
         for name, args in jobs:
             p = subprocess.run(["apalache-mc", "check", *args, "--out-dir=" + str(out_dir), Path(module_path).name],
-                               cwd=str(Path(module_path).parent), capture_output=True, text=True, timeout=timeout)
+                               cwd=str(Path(module_path).parent), capture_output=True, text=True, timeout=timeout,
+                               env=dict(os.environ, TMPDIR=str(_jtmp())))      # the launcher makes its java.io.tmpdir with mktemp -t
             ok = "EXITCODE: OK" in p.stdout
             res["obligations"].append({"name": name, "ok": ok})
             if not ok:
